@@ -101,6 +101,18 @@ CLAIMS = {
        "record). NOT covered: clause attribution (report_all_failed_clauses_for_rules: ~15 record shapes, recursive), that every FAIL rule "
        "appears in not_compliant, the serialised JSON.",
   design="4/C09"),
+ "C10": dict(
+  text="Bounded symbolic execution (MIR, callees modelled, value identities tracked; z3+cvc5) of the loader -> evaluator conversion "
+       "`TryFrom<(MarkedValue, Path)> for PathAwareValue` (lists / maps of <= 2 entries): a scalar keeps its payload and its path "
+       "carries its own source location (attached by the scalar arm or handed down by the enclosing arm); the i-th list element is "
+       "converted under `path/i` with i its 0-based position, results appended in order; a map entry's value is converted under "
+       "`path/<its key>` and stored under that key, the key record carries the key's own location; the map carries the map's location; "
+       "a BadValue or a failing recursive conversion is an error.",
+  note="This is the path/position ATTACHMENT step only. NOT covered: the string built by Path::extend_str (Kani harnesses exist but do "
+       "not terminate in the quick budget: tier=probe), libyaml marks -> Location, that comparison results and the report builder keep "
+       "the values' paths (operators.rs clones, eval_context.rs report builder), unresolved `traversed_to` / `remaining_query`. No Kani "
+       "harness serves this property in the quick tier.",
+  design="0b/C10"),
  "C12": dict(
   text="Bounded symbolic execution (MIR, callees modelled, value identities tracked; z3+cvc5) of the three validate loops that pair "
        "rules files with documents: CommonStructuredReporter::report (<=2 documents x <=2 rules files), get_test_case (JUnit path) "
@@ -145,8 +157,9 @@ CLAIMS = {
        "four renderings.",
   design="4/C16"),
  "C17": dict(
-  text="PathAwareValue::merge decided twice: by Kani/CBMC on one-entry maps with symbolic integer values (disjoint keys: Ok with both "
-       "entries, in either order; equal keys: MultipleValues error even for equal values; map vs scalar: IncompatibleError) and on MIR "
+  text="PathAwareValue::merge decided twice: by Kani/CBMC on one-entry maps with symbolic integer values (equal keys: MultipleValues "
+       "error even for equal values; map vs scalar: IncompatibleError; the disjoint-key success case exhausts CBMC's memory - IndexMap "
+       "insertion - and is left to the MIR check) and on MIR "
        "(z3+cvc5, second map with <=2 entries, `contains_key` / the previous value returned by `insert` arbitrary): Ok only if NO key of "
        "the second map was already defined - whatever the values, including null - and then every entry is stored under its own key with "
        "its own value and listed in `keys`; a key defined twice is an Err; disjoint maps never give an Err. The --structured call site "
@@ -168,12 +181,11 @@ CLAIMS = {
   design="4/C18"),
 }
 
-MIR_ONLY = {"C12", "C15"}
+MIR_ONLY = {"C10", "C12", "C15"}
 
 NA = {
  "C05": "needs fresh hash seeds/processes; symbolic SipHash keys through hashbrown and the serde/console writers are beyond CBMC (a HashMap with unknown keys timed out at 10 min on two inserts)",
  "C07": "whole-program cross-format property over serde_json/serde_yaml/quick-xml/clap/file I/O; no bounded kernel the solver can be pointed at",
- "C10": "path construction and value cloning drop/clone heap-held PathAwareValues and positions come from libyaml marks; the chain (loader -> operators.rs -> report builder) is out of CBMC's reach",
  "C11": "unsafe-libyaml (transpiled C) + serde_yaml text parsing and str::parse::<f64> on symbolic bytes are not feasible CBMC targets; the equivalence is across three loaders",
  "C14": "nom/LocatedSpan combinators do not terminate under CBMC even on a 2-byte symbolic input (18 min, 7 GB); the parser is outside this technique on this image",
  "C19": "serde template parsing + string building + the full parser and evaluator round trip; whole-program",
@@ -215,7 +227,7 @@ def main():
         "engines": [
             {"name": "kani-cbmc", "path": "/verif/check", "serves_properties": sorted(set(CLAIMS) - MIR_ONLY),
              "kind_free_text": "Kani 0.68 (rustc MIR -> goto-program) + CBMC 6.11 (symbolic execution, bit-blasting, CaDiCaL) over the real cfn-guard crate; counterexamples replayed natively with cargo kani playback"},
-            {"name": "mir-smt", "path": "/verif/lib/mirsmt.py", "serves_properties": ["C01", "C02", "C03", "C04", "C06", "C08", "C09", "C12", "C13", "C15", "C16", "C17", "C18"],
+            {"name": "mir-smt", "path": "/verif/lib/mirsmt.py", "serves_properties": ["C01", "C02", "C03", "C04", "C06", "C08", "C09", "C10", "C12", "C13", "C15", "C16", "C17", "C18"],
              "kind_free_text": "nightly -Zunpretty=mir dump of the current tree; lib/mirsmt.py (loop-free kernels, havoc-mode overflow/negate site search), lib/mirexec.py (bounded path enumeration with call models, loop unrolling, value identities) and lib/miragg.py / mirblocks.py / mirflow.py (aggregation, memoisation, index, negation-flow, block, operator-layer, wiring and exit-code obligations) emit SMT-LIB2 decided by z3 4.8.12 and cvc5 1.0 (must agree); candidates are replayed through the real CLI built from the scratch copy"},
         ],
         "checks": checks,
